@@ -15,7 +15,12 @@ S7 == [il |-> FALSE, segs |-> <<G(3, 0, 3)>>]
 RECURSIVE Rep(_, _)
 Rep(s, n) == IF n = 0 THEN <<>> ELSE s \o Rep(s, n - 1)
 S8 == [il |-> FALSE, segs |-> Rep(<<G(1, 1, 1)>>, 104) \o <<G(1, 2, 1), G(2, 1, 1), G(1, 1, 2)>>]
-c_Long == {S8}
-c_All == {S1, S2, S3, S4, S5, S6, S7}
-c_Quick == {S1, S3, S6}
+\* exactly 100 segments, the channels differing in the last one only (block boundary of the offsets comparison)
+S9 == [il |-> FALSE, segs |-> Rep(<<G(1, 1, 1)>>, 99) \o <<G(2, 1, 1)>>]
+c_Long == {S8, S9}
+\* two channels with the same per-segment counts but shifted by one segment: equal cumulative offsets, different
+\* first segment (the offsets array is shared between them)
+S10 == [il |-> FALSE, segs |-> <<G(2, 0, 2), G(2, 2, 2), G(0, 2, 2)>>]
+c_All == {S1, S2, S3, S4, S5, S6, S7, S10}
+c_Quick == {S1, S3, S6, S10}
 ====
